@@ -204,6 +204,130 @@ static void dfs(const char* an, std::vector<int>& ops, int nlive, int depth, res
     }
 }
 
+
+//=== failure injection for --mode fail ===//
+#include <new>
+#include <sys/mman.h>
+static volatile int g_fail_armed = 0; // fail the next allocation primitive
+static volatile int g_fail_hits  = 0;
+extern "C" void* __real_malloc(size_t);
+extern "C" void* __wrap_malloc(size_t n)
+{
+    if (g_fail_armed)
+    {
+        g_fail_armed = 0;
+        ++g_fail_hits;
+        return nullptr;
+    }
+    return __real_malloc(n);
+}
+void* operator new(std::size_t n, const std::nothrow_t&) noexcept
+{
+    if (g_fail_armed)
+    {
+        g_fail_armed = 0;
+        ++g_fail_hits;
+        return nullptr;
+    }
+    return __real_malloc(n ? n : 1);
+}
+extern "C" void* __real_mmap(void*, size_t, int, int, int, off_t);
+extern "C" void* __wrap_mmap(void* addr, size_t len, int prot, int flags, int fd, off_t off)
+{
+    if (g_fail_armed == 1 && prot == PROT_NONE)
+    {
+        g_fail_armed = 0;
+        ++g_fail_hits;
+        return MAP_FAILED;
+    }
+    return __real_mmap(addr, len, prot, flags, fd, off);
+}
+extern "C" int __real_mprotect(void*, size_t, int);
+extern "C" int __wrap_mprotect(void* p, size_t len, int prot)
+{
+    if (g_fail_armed == 2 && prot != PROT_NONE)
+    {
+        g_fail_armed = 0;
+        ++g_fail_hits;
+        return -1;
+    }
+    return __real_mprotect(p, len, prot);
+}
+
+static int g_oom_handler = 0;
+static void h_oom(const fm::allocator_info&, std::size_t) noexcept
+{
+    ++g_oom_handler;
+}
+
+// one case: arm a failure of the allocation primitive, request `shape`: must throw something derived from std::bad_alloc
+// of the out_of_memory family with the handler called first; never null; the allocator must be usable afterwards
+template <class A>
+static std::string fail_case(const char* an, int sh, int arm, bool verbose)
+{
+    using traits = fm::allocator_traits<A>;
+    A            alloc;
+    const shape& s = SHAPES[sh];
+    fm::out_of_memory::set_handler(h_oom);
+    g_oom_handler = 0;
+    g_fail_hits   = 0;
+    void* p       = nullptr;
+    int   ex      = 0; // 1 out_of_memory, 2 other bad_alloc, 3 other
+    int   oc;
+    g_fail_armed = arm;
+    VERIF_GUARDED(oc, {
+        try
+        {
+            p = s.kind ? traits::allocate_array(alloc, s.count, s.size, s.align) : traits::allocate_node(alloc, s.size, s.align);
+        }
+        catch (fm::out_of_memory&)
+        {
+            ex = 1;
+        }
+        catch (std::bad_alloc&)
+        {
+            ex = 2;
+        }
+        catch (...)
+        {
+            ex = 3;
+        }
+    });
+    g_fail_armed = 0;
+    if (verbose)
+        std::printf("  %s shape %d arm %d -> outcome %s, exception class %d, pointer %p, primitive failed %d time(s), handler %d\n", an, sh, arm,
+                    outcome_name(oc), ex, p, g_fail_hits, g_oom_handler);
+    if (oc != OUT_OK)
+        return fmt("fail-%s|%s when the underlying allocation failed", outcome_name(oc), outcome_name(oc));
+    if (g_fail_hits == 0)
+    {
+        // the primitive was not reached (e.g. arm 2 on a non virtual allocator): not a fault case
+        if (p)
+        {
+            if (s.kind)
+                traits::deallocate_array(alloc, p, s.count, s.size, s.align);
+            else
+                traits::deallocate_node(alloc, p, s.size, s.align);
+        }
+        return "SKIP";
+    }
+    if (ex == 0 && !p)
+        return "fail-null|the throwing allocation function returned null when the underlying allocation failed";
+    if (ex == 0)
+        return "fail-absorbed|the underlying allocation failed but the call returned a pointer";
+    if (ex != 1)
+        return "fail-wrong-exception|failure of the underlying allocation was not signalled by the out_of_memory family";
+    if (g_oom_handler == 0)
+        return "fail-no-handler|out_of_memory thrown without calling its handler first";
+    // usable afterwards
+    void* q = nullptr;
+    VERIF_GUARDED(oc, { q = traits::allocate_node(alloc, 24, 8); });
+    if (oc != OUT_OK || !q)
+        return "fail-unusable|allocator unusable after a failed request";
+    traits::deallocate_node(alloc, q, 24, 8);
+    return "";
+}
+
 //=== leak at exit ===//
 static int g_pipe = -1;
 static void leak_to_pipe(const fm::allocator_info& info, std::ptrdiff_t amount)
@@ -377,7 +501,14 @@ int main(int argc, char** argv)
         }
         int al = js.find("malloc") != std::string::npos ? 1 : js.find("new_") != std::string::npos ? 2 : js.find("virtual") != std::string::npos ? 3 : 0;
         std::string v;
-        if (js.find("\"leak\"") != std::string::npos)
+        if (js.find("\"fail\"") != std::string::npos && ops.size() == 2)
+        {
+            v = al == 0 ? fail_case<fm::heap_allocator>(ANAME[0], ops[0], ops[1], true) : al == 1 ? fail_case<fm::malloc_allocator>(ANAME[1], ops[0], ops[1], true)
+                : al == 2 ? fail_case<fm::new_allocator>(ANAME[2], ops[0], ops[1], true) : fail_case<fm::virtual_memory_allocator>(ANAME[3], ops[0], ops[1], true);
+            if (v == "SKIP")
+                v = "";
+        }
+        else if (js.find("\"leak\"") != std::string::npos)
         {
             unsigned mask = unsigned(ops.back());
             ops.pop_back();
@@ -391,7 +522,34 @@ int main(int argc, char** argv)
         std::printf("verdict: %s\n", v.empty() ? "ok" : v.c_str());
         return v.empty() ? 0 : 1;
     }
-    if (mode == "dfs")
+    if (mode == "fail")
+    {
+        for (int al = 0; al < 4; ++al)
+            for (int sh = 0; sh < NSHAPES; ++sh)
+                for (int arm = 1; arm <= 2; ++arm)
+                {
+                    auto run = [&](bool verbose) {
+                        return al == 0 ? fail_case<fm::heap_allocator>(ANAME[0], sh, arm, verbose) : al == 1 ? fail_case<fm::malloc_allocator>(ANAME[1], sh, arm, verbose)
+                               : al == 2 ? fail_case<fm::new_allocator>(ANAME[2], sh, arm, verbose) : fail_case<fm::virtual_memory_allocator>(ANAME[3], sh, arm, verbose);
+                    };
+                    std::string v = run(false);
+                    if (v == "SKIP")
+                        continue;
+                    ++r.sequences;
+                    r.classes.insert(std::string(ANAME[al]) + ":" + std::to_string(sh) + ":" + std::to_string(arm));
+                    if (r.samples.size() < 4 && sh == 1)
+                        r.samples.push_back(fmt("%s: %s fails during request shape %d", ANAME[al], arm == 1 ? "malloc/new/mmap" : "mprotect(commit)", sh));
+                    if (!v.empty())
+                    {
+                        std::string v2 = run(false);
+                        jobj input;
+                        input.str("mode", "fail").str("alloc", ANAME[al]).raw("ops", fmt("[%d,%d]", sh, arm));
+                        auto bar = v.find('|');
+                        add_vio(r, std::string(ANAME[al]) + "/" + v.substr(0, bar), v.substr(bar + 1) + (v2 == v ? "" : " (not reproduced)"), input.done());
+                    }
+                }
+    }
+    else if (mode == "dfs")
     {
         int              depth = thor ? 6 : 5;
         std::vector<int> ops;
@@ -453,7 +611,9 @@ int main(int argc, char** argv)
     for (auto& v : r.vio)
         vs.raw(v);
     o.num("evaluations", r.sequences).num("distinct_nontrivial", (long long)r.classes.size())
-        .str("rule", mode == "dfs" ? "all sequences up to the depth over {5 request shapes, release of any live allocation} on heap/malloc/new/virtual_memory allocators; "
+        .str("rule", mode == "fail" ? "every low-level allocator x 5 request shapes x {malloc / operator new / mmap fails, mprotect (commit) fails}: the request must throw the "
+                                      "out_of_memory family after calling its handler, never return null, and leave the allocator usable; distinct = (allocator, shape, primitive)"
+                     : mode == "dfs" ? "all sequences up to the depth over {5 request shapes, release of any live allocation} on heap/malloc/new/virtual_memory allocators; "
                                      "distinct = (allocator, length, live count)"
                                    : "all multisets of <= 2/3 allocations x all subsets released, each in a forked child that exits normally; distinct = (allocator, "
                                      "allocations, releases)")
